@@ -427,6 +427,11 @@ func (c *cmp) static(path string, wv, gv reflect.Value, strictDyn bool) error {
 			if !eqTime(w, g) {
 				return fail(path, "want time %v, got %v", w.UTC().Format(time.RFC3339Nano), g.UTC().Format(time.RFC3339Nano))
 			}
+			// two decoder results (differential use): the same Go value, zone included - a timestamp is compared
+			// with == as a map key and by reflect.DeepEqual
+			if strictDyn && !w.IsZero() && w.Location().String() != g.Location().String() {
+				return fail(path, "the same instant %v in different locations: %v vs %v", w.UTC().Format(time.RFC3339Nano), w.Location(), g.Location())
+			}
 			return nil
 		}
 		for i := 0; i < wv.NumField(); i++ {
